@@ -284,7 +284,13 @@ class Inliner:
             elif isinstance(s, ast.Assign) and isinstance(s.value, ast.Call):
                 call = s.value
                 tg = s.targets
-                cont = (lambda e, tg=tg: [ast.Assign(targets=clone(tg), value=e if e is not None else ast.Constant(value=None))])
+
+                def cont(e, tg=tg):
+                    if e is not None and len(tg) == 1 and isinstance(tg[0], ast.Tuple) and isinstance(e, ast.Tuple) and len(e.elts) == len(tg[0].elts) \
+                            and not any(isinstance(x, ast.Starred) for x in list(e.elts) + list(tg[0].elts)):
+                        # (a, b, ...) = (x, y, ...) with simple right-hand sides: element-wise copies
+                        return [ast.Assign(targets=[clone(t)], value=clone(v)) for t, v in zip(tg[0].elts, e.elts)]
+                    return [ast.Assign(targets=clone(tg), value=e if e is not None else ast.Constant(value=None))]
             elif isinstance(s, ast.AugAssign) and isinstance(s.value, ast.Call):
                 call = s.value
                 cont = (lambda e, s=s: [ast.AugAssign(target=clone(s.target), op=s.op, value=e if e is not None else ast.Constant(value=None))])
@@ -328,8 +334,78 @@ def _inlinable_position(call):
     return False
 
 
+def _expression_helper(fn):
+    """A private helper whose body is a single `return <expression>` (pure formula): can be inlined at any call position."""
+    if not _is_private(fn.name) or fn.name in ANCHORS or (_decorators(fn) - {"staticmethod"}):
+        return None
+    if fn.args.vararg or fn.args.kwarg or fn.args.kwonlyargs or fn.args.defaults:
+        return None
+    body = [b for b in fn.body if not isinstance(b, (ast.Pass, ast.Import, ast.ImportFrom))]
+    if len(body) == 1 and isinstance(body[0], ast.Return) and body[0].value is not None:
+        v = body[0].value
+        if not any(isinstance(n, (ast.Lambda, ast.Yield, ast.YieldFrom, ast.Await, ast.NamedExpr)) for n in ast.walk(v)):
+            return v
+    return None
+
+
+class _ExprInliner(ast.NodeTransformer):
+    def __init__(self, repo, caller, log):
+        self.repo, self.caller, self.log = repo, caller, log
+
+    def visit_Call(self, node):
+        self.generic_visit(node)
+        f = node.func
+        target, recv = None, None
+        cls = getattr(self.caller, "_cls", None)
+        if isinstance(f, ast.Name) and _is_private(f.id):
+            r = self.repo.resolve_name(self.caller._module, f.id)
+            if isinstance(r, ast.FunctionDef) and getattr(r, "_cls", None) is None:
+                target = r
+        elif isinstance(f, ast.Attribute) and _is_private(f.attr) and isinstance(f.value, ast.Name) and f.value.id == "self" and cls is not None:
+            target = cls.find_method(f.attr)
+            recv = f.value
+        if target is None or target is self.caller:
+            return node
+        expr = _expression_helper(target)
+        if expr is None or node.keywords or any(isinstance(a, ast.Starred) for a in node.args):
+            return node
+        params = [a.arg for a in target.args.posonlyargs + target.args.args]
+        mapping = {}
+        if getattr(target, "_cls", None) is not None and "staticmethod" not in _decorators(target):
+            if recv is None:
+                return node
+            mapping[params[0]] = recv
+            params = params[1:]
+        if len(params) != len(node.args):
+            return node
+        for p_, a in zip(params, node.args):
+            uses = sum(1 for n in ast.walk(expr) if isinstance(n, ast.Name) and n.id == p_)
+            if not _simple(a) and uses > 1:
+                return node          # a compound argument would be evaluated several times
+            mapping[p_] = a
+        new = _Subst(mapping, {}).visit(clone(expr))
+        for n in ast.walk(new):
+            n.lineno = getattr(node, "lineno", 0)
+            n.col_offset = getattr(node, "col_offset", 0)
+            n.end_lineno = n.lineno
+            n.end_col_offset = 0
+        self.log.append((self.caller.name, target.name, int(getattr(node, "lineno", 0))))
+        return new
+
+
 def inline_private_helpers(repo, passes=3):
     inl = Inliner(repo)
+    # pure formula helpers first, at any call position
+    for fn in list(repo.all_functions()):
+        if getattr(fn, "_module", None) is None:
+            continue
+        x = _ExprInliner(repo, fn, inl.inlined)
+        for i, st in enumerate(fn.body):
+            fn.body[i] = x.visit(st)
+    if inl.inlined:
+        for m in repo.modules.values():
+            from .model import set_parents
+            set_parents(m.tree)
     # all-or-nothing: a helper with a call site that cannot be inlined (e.g. inside a comparison or a comprehension) stays a unit of its own
     blocked = set()
     for fn in repo.all_functions():
